@@ -66,16 +66,48 @@ def r1_next_wakeup(ctx):
               fnext.where(), {'positional': [s.name for s in positional], 'search': [s.name for s in searching]})
     # the search predicate is "slot has entries"
     if ok:
-        preds = [g for g in P.closures_of(fnext)]
-        good = False
-        for g in preds:
-            for b, t in ret_trees(g):
-                t = peel(t)
-                if t[0] == 'un' and t[1] == 'Not':
-                    inner = peel(t[2])
-                    if inner[0] == 'call' and inner[1].endswith('::is_empty') and any(x[0] == 'field' and x[2] == 'entrys' for x in walk(inner)):
-                        good = True
-        ctx.check(good, 'search-predicate', 'the search selects the first slot that still has entries', fnext.where())
+        ctx.check(any(_selects_nonempty(ctx, g) for g in [fnext] + P.closures_of(fnext)), 'search-predicate',
+                  'the search selects the first slot that still has entries', fnext.where())
+
+
+def _mentions_entries(t):
+    return any(x[0] == 'field' and x[2] == 'entrys' for x in walk(t))
+
+
+def _selects_nonempty(ctx, g):
+    """g accepts (returns true / Some(time)) only slots whose entry list is non-empty"""
+    # (a) straight-line predicate: `!entries.is_empty()` / `entries.len() > 0`
+    for b, t in ret_trees(g):
+        a = atom_of(t, ('eq', 1))
+        if a and a[0] == 'bool' and a[2] is False and a[1][0] == 'call' and a[1][1].endswith('::is_empty') and _mentions_entries(a[1]):
+            return True
+        if a and a[0] == 'cmp' and _len_positive(a):
+            return True
+    # (b) branching: every accepting path carries the non-emptiness fact
+    n = 0
+    for path, outcome, decs in fn_paths(ctx, g):
+        if outcome != 'return':
+            continue
+        r = path_ret(g, path)
+        accepting = r == ('int', 1) or (r is not None and r[0] == 'agg' and r[1].endswith('Option::Some'))
+        if not accepting:
+            continue
+        n += 1
+        atoms = [a for _, a in path_atoms(g, path, decs)]
+        good = any((a[0] == 'bool' and a[2] is False and a[1][0] == 'call' and a[1][1].endswith('::is_empty') and _mentions_entries(a[1])) or
+                   (a[0] == 'cmp' and _len_positive(a)) for a in atoms)
+        if not good:
+            return False
+    return n > 0
+
+
+def _len_positive(a):
+    op, l, r = a[1], a[2], a[3]
+    if r[0] == 'call' and r[1].endswith('::len'):
+        l, r, op = r, l, SWAP[op]
+    if not (l[0] == 'call' and l[1].endswith('::len') and _mentions_entries(l)):
+        return False
+    return (op in ('gt', 'ne') and r == ('int', 0)) or (op == 'ge' and r == ('int', 1))
 
 
 def _closure_ret_atoms(P, f):
